@@ -18,7 +18,7 @@ ID = "C05"
 LEVEL = "exploration"
 RULE = ("Hypothesis-generated cases in five families: (value) Python values of every documented primitive type "
         "-> converter.serialize must lie in the XSD lexical space (own recogniser + libxml2) and deserialize back "
-        "to the same value; (lex) lexical forms valid by construction from the XSD grammar (signs, leading zeros, "
+        "to the same value, and a list / tuple of such values must serialize to the space-separated items' own forms under the same format and prefix map; (lex) lexical forms valid by construction from the XSD grammar (signs, leading zeros, "
         "exponents, INF/NaN, surrounding XML whitespace, base64 with breaks, hex case) -> deserialize must give the "
         "by-construction value (exact via Fraction); (union) such a form x a candidate type list -> result type is the "
         "first in the documented priority order whose lexical space contains it; (enum) enumerations over "
@@ -372,6 +372,20 @@ def run_value(case, col):
         return fails
     if not deep_eq(back, v):
         fails.append(Failure(f"value-roundtrip/{kind}", f"{v!r} -> {s!r} -> {back!r}", case))
+
+    # (3) a list (xs:list / tokens) of such values is the space-separated sequence of the items' own forms under the
+    # same format / prefix map
+    def fresh():
+        return {k: (dict(x) if isinstance(x, dict) else x) for k, x in kw.items()}
+    try:
+        one = converter.serialize(v, **fresh())
+        for seq in ([v, v], (v,), [v]):
+            got = converter.serialize(seq, **fresh())
+            if got != " ".join([one] * len(seq)):
+                fails.append(Failure(f"value-list/{kind}", f"serialize({seq!r}, {kw}) = {got!r}, items alone give {one!r}", case))
+                break
+    except Exception as e:
+        fails.append(Failure(exc_sig(f"value-list-raise/{kind}", e), f"serialize([{v!r}, ...], {kw}) raised {type(e).__name__}: {e}", case))
     return fails
 
 
